@@ -8,7 +8,7 @@ def run(chk):
         "Decides absence of specific classes of panic; it does not prove the ~500 remaining panic-capable sites (indexing, unwrap on internal "
         "invariants, third-party code) safe. R04a: no coercion result on a run-time value is unwrapped in resolve-reachable stdlib code. R04b: no result "
         "of a `dyn Target` call is unwrapped. R04c: every keyword compile() reads is declared (a mismatch is the 'invalid function signature' panic). "
-        "R04e: no overflow-capable negation / iN::abs / iN::pow of a run-time signed integer. R04f: no unguarded sign-losing cast feeding a count/index. R04g: no str slice/index bound computed from a character count. R04h: divisors and chunk/window/step sizes are constants or compared against zero.")
+        "R04e: no overflow-capable negation / iN::abs / iN::pow of a run-time signed integer. R04f: no unguarded sign-losing cast feeding a count/index. R04g: no str slice/index bound computed from a character count. R04h: divisors and chunk/window/step sizes are constants or compared against zero. R04i: `regex::Captures` is indexed with the panicking `[]` only at the reviewed sites where the group always takes part in the match (an optional or alternated group makes `caps[i]` panic; `caps.get(i)` is the total API).")
     chk.assumptions += ["builds with overflow checks (the test profile) panic on arithmetic overflow; release builds wrap — the rule treats both as defects"]
     M = sr.function_model(chk.facts)
     sr.rule_coercion_unwrapped(chk, "R04a", M)
@@ -19,3 +19,33 @@ def run(chk):
     sr.rule_guarded_casts(chk, "R04f")
     sr.rule_char_count_as_byte_index(chk, "R04g")
     sr.rule_zero_intolerant(chk, "R04h")
+
+    rule_r04i(chk)
+
+
+CAPTURES_INDEX_OK = {
+    "stdlib::parse_duration::parse_duration": "its own static pattern: `value` and `unit` are mandatory named groups",
+    "<&stdlib::redact::Redactor as regex::Replacer>::replace_append": "group 0 (the whole match) always participates",
+}
+
+
+def rule_r04i(chk):
+    import re
+    facts = chk.facts
+    rid = "R04i"
+    chk.rule(rid, "regex::Captures is indexed with `[]` only at reviewed sites", floor=2)
+    for i in facts.index:
+        if "/build/" in i["file"] or i["name"].startswith("cli::"):
+            continue
+        for cal in i["callees"]:
+            if re.search(r"^<regex::(bytes::)?Captures<.*> as std::ops::Index<.*>>::index$", cal):
+                base = i["name"].split("::{closure")[0]
+                d = {"fn": i["name"], "callee": cal, "reviewed": CAPTURES_INDEX_OK.get(base)}
+                ok = base in CAPTURES_INDEX_OK
+                chk.instance(rid, d, ok=ok)
+                if not ok:
+                    b = facts.body(i["name"])
+                    chk.violation(rid, b.file, i["name"], "Captures indexed with []",
+                                  "%s indexes a regex::Captures with `[]`: a named or numbered group that did not take part in the match (optional / "
+                                  "alternated groups of a user-supplied pattern) makes this panic; use `.get(i)`" % i["name"], detail=d,
+                                  loc="%s:%d" % (b.file, b.line))
